@@ -80,8 +80,7 @@ def main(tier, seed, replay=None):
         scs = [sk.gen_start_scenario(rnd, drops=False) for _ in range(400 if tier == 'quick' else 6000)]
         scs += directed()
     sk.model_check(v, tier)
-    traces = sk.run_scenarios(scs)
-    allv = sk.judge(v, traces, scs, LABELS, TERMINAL)
+    allv, _, _ = sk.run_and_judge(v, scs, LABELS, TERMINAL)
     if replay:
         print(allv)
     v.sample({'scenario': scs[0]})
